@@ -24,7 +24,7 @@ import xxhash
 from vp_common import REPO, Atom, Ctx, InfraError, line, run_driver
 
 PROP = 'C13'
-RULE = ('row sequences (1-3 string columns, 1..60 rows, thorough to 400) whose values are engineered to cross the rare threshold '
+RULE = ('[plus one rare-value report at scale per run: 250000-300000 random identifiers retired in batch 1, as many new ones in batch 2, oracle only] row sequences (1-3 string columns, 1..60 rows, thorough to 400) whose values are engineered to cross the rare threshold '
         'early and reappear later, missing symbols (\'\', {}, NA, duplicated / ordinary tokens as symbols), high/low cardinality, '
         'unicode; each under the single batch + 3-5 random / targeted compositions into batches; thresholds -1..10, counter bounds '
         '0..30000, the real sketch (p=19) and the real class with small (p,W) so that the sketch phase is reached. '
@@ -666,11 +666,57 @@ def corpus():
     ]
 
 
+def evaluate_scale(ctx: Ctx, specs):
+    """the rare-value report at scale: N identifier-like values seen twice in batch 1 (they exceed the bound 1 and are retired),
+    N other values seen once in batch 2.  Exact recomputation over the consumed rows: exactly the N values of batch 2, count 1 each;
+    and the same rows as ONE batch must give the same report.  Oracle only (the property's own clause)."""
+    import random
+
+    import pandas as pd
+    from outrank import core_ranking as cr
+    for spec in specs:
+        r = random.Random(f'scale:{spec["seed"]}')
+        N, col = spec['n'], spec['column']
+        a = ['%016x' % r.getrandbits(64) for _ in range(N)]
+        b = ['%016x' % r.getrandbits(64) for _ in range(N)]
+        first = a + a
+        r.shuffle(first)
+        args = types.SimpleNamespace(missing_value_symbols='', rare_value_count_upper_bound=1)
+        ctx.evaluations += 1
+        ctx.count('rare-report-at-scale')
+        reports = []
+        for batches in ([first, b], [first + b]):
+            cr.GLOBAL_RARE_VALUE_STORAGE = collections.Counter()
+            cr.IGNORED_VALUES = set()
+            try:
+                for rows in batches:
+                    cr.compute_value_counts(pd.DataFrame({col: rows}), args)
+                reports.append({k: int(v) for k, v in cr.GLOBAL_RARE_VALUE_STORAGE.items()})
+            finally:
+                cr.GLOBAL_RARE_VALUE_STORAGE = collections.Counter()
+                cr.IGNORED_VALUES = set()
+        exact = {(col, v): 1 for v in set(b) - set(a)}
+        show = (f'column {col!r}: {N} random 16-hex values twice each in batch 1, {N} others once each in batch 2 (generated from seed {spec["seed"]}), '
+                f'rare bound 1')
+        for rep, how in zip(reports, ('two batches', 'one batch')):
+            if rep != exact:
+                missing = [k for k in exact if k not in rep][:3]
+                extra = [(k, v) for k, v in rep.items() if exact.get(k) != v][:3]
+                ctx.oracle_fail('rare-exact', f'{show}, consumed as {how}: the report has {len(rep)} entries, the exact recomputation {len(exact)}; '
+                                f'missing {missing}, wrong/extra {extra}', {'scale': spec})
+                break
+
+
+def scale_specs(rng, k):
+    return [{'n': rng.choice([250000, 300000]), 'column': rng.choice(['campaign', 'f0', 'user id']), 'seed': rng.randrange(10 ** 6)} for _ in range(k)]
+
+
 def run(ctx: Ctx):
     cli = cli_start(ctx)
     try:
         n = 2000 if ctx.thorough() else 700
         evaluate(ctx, corpus() + [gen_case(ctx.rng, ctx.thorough()) for _ in range(n)])
+        evaluate_scale(ctx, scale_specs(ctx.rng, 3 if ctx.thorough() else 1))
     except BaseException:
         for j in cli['jobs']:
             j['proc'].kill()
@@ -683,6 +729,7 @@ def search(ctx: Ctx):
     sub = Ctx(ctx.prop, ctx.tier)
     sub.rng.seed(f'search:{ctx.seed}')
     evaluate(sub, [gen_case(sub.rng, True) for _ in range(1800)], oracle_only=True)
+    evaluate_scale(sub, scale_specs(sub.rng, 2))
     return sub.oracle_failures
 
 
@@ -690,5 +737,8 @@ def replay(ctx: Ctx, payload):
     case = payload['case']
     if 'cli' in case:
         print('replay: end-to-end CLI finding – re-run ./check C13 quick (the CLI runs are part of every check run)')
+        return
+    if 'scale' in case:
+        evaluate_scale(ctx, [case['scale']])
         return
     evaluate(ctx, [case])
